@@ -36,8 +36,11 @@ HistPoint(H, bounds) ==
         sumq |-> HSumK(H)]
 
 (* clauses of the statement broken by an observed point o (o.nb = number of boundaries the
-   point reports, o.boundsok = they are the configured ones) *)
-HistClauses(o, H, bounds, quant) ==
+   point reports, o.boundsok = they are the configured ones).  A stream configured not to
+   collect extrema (NoMinMax) must report none (-2 = not reported: a reported minimum has to be
+   the exact minimum); one that collects no sum (instrument kinds that may record negative
+   values) reports the zero value (o.sumz). *)
+HistClauses(o, H, bounds, quant, nosum, nominmax) ==
   IF H = <<>> THEN (IF o.present THEN {"present"} ELSE {})
   ELSE IF ~o.present THEN {"absent"}
   ELSE LET p == HistPoint(H, bounds) IN
@@ -46,8 +49,9 @@ HistClauses(o, H, bounds, quant) ==
        \cup (IF o.count # HSumSeq(o.counts) THEN {"count-sum"} ELSE {})
        \cup (IF o.counts # p.counts THEN {"placement"} ELSE {})
        \cup (IF o.count # p.count THEN {"count"} ELSE {})
-       \cup (IF o.min # p.min THEN {"min"} ELSE {})
-       \cup (IF o.max # p.max THEN {"max"} ELSE {})
-       \cup (IF quant THEN (IF o.sumq # p.sumq THEN {"sum"} ELSE {})
+       \cup (IF o.min # (IF nominmax THEN -2 ELSE p.min) THEN {"min"} ELSE {})
+       \cup (IF o.max # (IF nominmax THEN -2 ELSE p.max) THEN {"max"} ELSE {})
+       \cup (IF nosum THEN (IF ~o.sumz THEN {"sum"} ELSE {})
+             ELSE IF quant THEN (IF o.sumq # p.sumq THEN {"sum"} ELSE {})
              ELSE (IF ~o.sumok THEN {"sum"} ELSE {}))
 =============================================================================
